@@ -12,6 +12,10 @@ from jinja2 import Environment, nodes
 from .index import AnalysisError
 
 
+class NotModelled(AnalysisError):
+    """The template uses a construct this interpreter does not model: never a verdict about the template."""
+
+
 class Undef:
     def __repr__(self):
         return "Undef"
@@ -35,7 +39,8 @@ class ConfigMap:
 
 
 SUPPORTED = {"Template", "Output", "TemplateData", "Assign", "If", "For", "Name", "Const", "Getitem", "Getattr", "Filter", "Test",
-             "Add", "Concat", "List", "Slice", "Call", "Or", "Sub", "Compare", "Operand", "Not", "And", "CondExpr", "Tuple"}
+             "Add", "Concat", "List", "Slice", "Call", "Or", "Sub", "Compare", "Operand", "Not", "And", "CondExpr", "Tuple", "Macro", "Keyword",
+             "Mul", "Dict", "Pair"}
 
 
 class JinjaAI:
@@ -46,7 +51,7 @@ class JinjaAI:
         self._scan(self.tree)
         bad = self.kinds - SUPPORTED
         if bad:
-            raise AnalysisError(f"template {name}: node kinds not modelled: {sorted(bad)}")
+            raise NotModelled(f"template {name}: node kinds not modelled: {sorted(bad)}")
 
     def _scan(self, n):
         self.kinds.add(type(n).__name__)
@@ -89,7 +94,7 @@ class JinjaAI:
                     self.out.append(self.to_text(v))
         elif isinstance(n, nodes.Assign):
             if not isinstance(n.target, nodes.Name):
-                raise AnalysisError(f"{self.name}:{n.lineno}: assignment target not modelled")
+                raise NotModelled(f"{self.name}:{n.lineno}: assignment target not modelled")
             self.env[n.target.name] = self.expr(n.node)
             self.trace.append((n.lineno, f"{n.target.name} = {self.env[n.target.name]!r}"))
         elif isinstance(n, nodes.If):
@@ -106,15 +111,17 @@ class JinjaAI:
             if not isinstance(it, (list, tuple)):
                 raise AnalysisError(f"{self.name}:{n.lineno}: loop over a non-list value")
             if not isinstance(n.target, nodes.Name):
-                raise AnalysisError(f"{self.name}:{n.lineno}: loop target not modelled")
+                raise NotModelled(f"{self.name}:{n.lineno}: loop target not modelled")
             saved = dict(self.env)
             for item in it:
                 self.env[n.target.name] = item
                 self.block(n.body)
             # Jinja loops have their own scope: assignments inside do not leak (in-place list mutations do)
             self.env = saved
+        elif isinstance(n, nodes.Macro):
+            self.env[n.name] = ("macro", n)
         else:
-            raise AnalysisError(f"{self.name}: statement {type(n).__name__} not modelled")
+            raise NotModelled(f"{self.name}: statement {type(n).__name__} not modelled")
 
     def truth(self, v):
         if v is UNDEF:
@@ -137,13 +144,40 @@ class JinjaAI:
             return [self.expr(x) for x in n.items]
         if isinstance(n, nodes.Test):
             if n.name != "defined":
-                raise AnalysisError(f"{self.name}:{n.lineno}: test {n.name} not modelled")
+                raise NotModelled(f"{self.name}:{n.lineno}: test {n.name} not modelled")
             return self.expr(n.node) is not UNDEF
         if isinstance(n, nodes.Add):
             l, r = self.expr(n.left), self.expr(n.right)
             if l is UNDEF or r is UNDEF:
                 raise AnalysisError(f"{self.name}:{n.lineno}: arithmetic on an undefined value")
             return l + r
+        if isinstance(n, nodes.Mul):
+            return self.expr(n.left) * self.expr(n.right)
+        if isinstance(n, nodes.Dict):
+            return {self.expr(p_.key): self.expr(p_.value) for p_ in n.items}
+        if isinstance(n, nodes.CondExpr):
+            if self.truth(self.expr(n.test)):
+                return self.expr(n.expr1)
+            return self.expr(n.expr2) if n.expr2 is not None else UNDEF
+        if isinstance(n, nodes.Tuple):
+            return tuple(self.expr(x) for x in n.items)
+        if isinstance(n, nodes.Compare):
+            left = self.expr(n.expr)
+            ops = {"eq": lambda a, b: a == b, "ne": lambda a, b: a != b, "lt": lambda a, b: a < b, "lteq": lambda a, b: a <= b,
+                   "gt": lambda a, b: a > b, "gteq": lambda a, b: a >= b, "in": lambda a, b: a in b, "notin": lambda a, b: a not in b}
+            for op in n.ops:
+                right = self.expr(op.expr)
+                if op.op not in ops:
+                    raise NotModelled(f"{self.name}:{n.lineno}: comparison {op.op} not modelled")
+                if (left is UNDEF or right is UNDEF) and op.op not in ("eq", "ne"):
+                    raise AnalysisError(f"{self.name}:{n.lineno}: comparison with an undefined value")
+                try:
+                    if not ops[op.op](left, right):
+                        return False
+                except TypeError:
+                    raise AnalysisError(f"{self.name}:{n.lineno}: comparison of incompatible values")
+                left = right
+            return True
         if isinstance(n, nodes.Sub):
             return self.expr(n.left) - self.expr(n.right)
         if isinstance(n, nodes.Concat):
@@ -195,7 +229,33 @@ class JinjaAI:
                     raise AnalysisError(f"{self.name}:{n.lineno}: append of an undefined value")
                 f[1].append(args[0])
                 return None
-            raise AnalysisError(f"{self.name}:{n.lineno}: call not modelled")
+            if isinstance(f, tuple) and f[0] == "macro":
+                m = f[1]
+                if n.dyn_args is not None or n.dyn_kwargs is not None:
+                    raise NotModelled(f"{self.name}:{n.lineno}: macro call with * arguments not modelled")
+                names = [a.name for a in m.args]
+                vals = {}
+                for nm, a in zip(names, n.args):
+                    vals[nm] = self.expr(a)
+                for kw in n.kwargs:
+                    vals[kw.key] = self.expr(kw.value)
+                defaults = list(m.defaults)
+                for nm, d in zip(names[len(names) - len(defaults):], defaults):
+                    if nm not in vals:
+                        vals[nm] = self.expr(d)
+                for nm in names:
+                    vals.setdefault(nm, UNDEF)
+                # a macro sees the template's top-level names and its own arguments; what it prints is its value
+                saved_env, saved_out = self.env, self.out
+                self.env = {**saved_env, **vals}
+                self.out = []
+                try:
+                    self.block(m.body)
+                    text = "".join(self.out)
+                finally:
+                    self.env, self.out = saved_env, saved_out
+                return text
+            raise NotModelled(f"{self.name}:{n.lineno}: call not modelled")
         if isinstance(n, nodes.Filter):
             v = self.expr(n.node)
             if n.name == "default":
@@ -206,5 +266,25 @@ class JinjaAI:
                 if not isinstance(v, list):
                     raise AnalysisError(f"{self.name}:{n.lineno}: join of a non-list")
                 return sep.join(self.to_text(x) for x in v)
-            raise AnalysisError(f"{self.name}:{n.lineno}: filter {n.name} not modelled")
-        raise AnalysisError(f"{self.name}: expression {type(n).__name__} not modelled")
+            if n.name in ("length", "count"):
+                if v is UNDEF:
+                    return 0
+                if isinstance(v, (list, tuple, str, dict)):
+                    return len(v)
+                raise AnalysisError(f"{self.name}:{n.lineno}: length of a value without one")
+            if n.name in ("first", "last"):
+                if isinstance(v, (list, tuple)):
+                    return (v[0] if n.name == "first" else v[-1]) if v else UNDEF
+                raise NotModelled(f"{self.name}:{n.lineno}: filter {n.name} of a non-list not modelled")
+            if n.name in ("string", "trim", "lower", "upper") and isinstance(v, (str, int)):
+                t_ = self.to_text(v)
+                return {"string": t_, "trim": t_.strip(), "lower": t_.lower(), "upper": t_.upper()}[n.name]
+            if n.name == "int" and isinstance(v, (int, str)) and not isinstance(v, bool):
+                try:
+                    return int(v)
+                except ValueError:
+                    return self.expr(n.args[0]) if n.args else 0
+            if n.name == "list" and isinstance(v, (list, tuple)):
+                return list(v)
+            raise NotModelled(f"{self.name}:{n.lineno}: filter {n.name} not modelled")
+        raise NotModelled(f"{self.name}: expression {type(n).__name__} not modelled")
